@@ -245,6 +245,31 @@ def streamerVals (cfg : List Streamer) (op : StreamOp) : Except Err (List Val) :
     .ok ((cfg.zipIdx.zip rs).flatMap (fun y => y.2.1) ++ cfg.zipIdx.flatMap transposeVal
          ++ (cfg.zipIdx.zip rs).flatMap bcastVal)
 
+/-! ## The streaming-region verifier and the address stream a pattern denotes -/
+
+/-- `snax_stream.StreamingRegionOp.verify_`, the part that looks at the streamer configuration: one pattern per
+streamer, and no pattern AS WRITTEN has more temporal loops / spatial strides than its streamer has dimensions
+(`len(stride_pattern.temporal_strides) > streamer.temporal_dim` raises). The module verifier runs between all
+passes, so only accepted regions reach the value generators in the pipeline. -/
+def regionAccepts (cfg : List Streamer) (op : StreamOp) : Bool :=
+  op.pats.length == cfg.length &&
+  (cfg.zip op.pats).all fun x =>
+    decide (x.2.dims.length ≤ x.1.tdims.length) && decide (x.2.ss.length ≤ x.1.sdims.length)
+
+/-- addresses of a loop nest given OUTERMOST loop first -/
+def addrsOut : List (Int × Int) → List Int
+  | [] => [0]
+  | d :: rest => (List.range d.1.toNat).flatMap fun (i : Nat) => (addrsOut rest).map (· + (i : Int) * d.2)
+
+/-- The temporal address stream (relative to the base pointer) of a list of (bound, stride) loops, entry 0 being
+the innermost loop — both for a stride pattern and for the registers `bound_i` / `tstride_i` of a streamer. -/
+def addrStream (dims : List (Int × Int)) : List Int := addrsOut dims.reverse
+
+/-- the (bound, stride) pairs that end up in `bound_i` / `tstride_i`, before the reuse collapse: positions
+`0 … tdim-1` of the padded pattern; anything beyond is silently dropped by the generator -/
+def writtenDims (st : Streamer) (p : Pattern) : List (Int × Int) :=
+  (st.tdims.zip (padDims st p)).map (·.2)
+
 /-! ## snax_alu (streaming-region path) -/
 
 def aluFields (cfg : List Streamer) : List Field := streamerFields cfg ++ [.aluMode, .loopBoundAlu]
